@@ -606,7 +606,7 @@ func genMisc(r *rng, idx int) srvCase {
 func genBudget(r *rng, idx int) srvCase {
 	c := srvCase{idx: idx, cfg: baseCfg(r, "budget")}
 	c.cfg.budget = r.intn(7)
-	c.cfg.wait = false
+	c.cfg.wait = r.bool() // with the exact-budget limiter Wait fails at once when the budget is spent
 	root := c.cfg.root
 	qid := 0
 	for i := 0; i < 14; i++ {
